@@ -29,6 +29,10 @@ func PathValues(p protopath.Path, m proto.Message) (protopath.Values, error) {
 			v.Values = append(v.Values, cursor)
 		case protopath.FieldAccessStep:
 			if f, ok := desc.(protoreflect.FieldDescriptor); ok {
+				// The cursor holds a list or a map here, not a message: Message() on it would panic.
+				if f.IsList() || f.IsMap() {
+					return protopath.Values{}, fmt.Errorf("%d: field access on list or map field %s without an index", i, f.Name())
+				}
 				desc = f.Message()
 			}
 			md, ok := desc.(protoreflect.MessageDescriptor)
